@@ -4,8 +4,362 @@ import (
 	"fmt"
 	"go/ast"
 	"go/constant"
+	"go/parser"
+	"go/token"
+	"os"
+	"path/filepath"
+	"sort"
 	"strings"
 )
+
+// ---------------------------------------------------------------------------------------------------------
+// round 4: a small expression translator (Go condition / arithmetic expression -> Lean term), the classification
+// of the barrier argument of the constructors, and the if-conditions of a function.
+
+type c06Tr struct {
+	s      *source
+	rel    string
+	consts map[string]string // source text of an expression -> Lean literal (constants of other packages)
+	types  map[string]string // Lean name of a free variable -> Lean type (default: dflt)
+	dflt   string
+	free   []string
+	err    string
+}
+
+func (t *c06Tr) v(name string) string {
+	n := leanIdent(strings.NewReplacer(".", "_", "(", "_", ")", "").Replace(name))
+	for _, f := range t.free {
+		if f == n {
+			return n
+		}
+	}
+	t.free = append(t.free, n)
+	return n
+}
+
+func (t *c06Tr) lit(v constant.Value) (string, bool) {
+	switch v.Kind() {
+	case constant.Int:
+		return "(" + v.ExactString() + " : " + t.dflt + ")", true
+	case constant.Float:
+		if t.dflt == "Rat" {
+			r := v.ExactString() // num/den or integer
+			if i := strings.IndexByte(r, '/'); i >= 0 {
+				return "((" + r[:i] + " : Rat) / " + r[i+1:] + ")", true
+			}
+			return "(" + r + " : Rat)", true
+		}
+	case constant.String:
+		return leanString(constant.StringVal(v)), true
+	}
+	return "", false
+}
+
+func (t *c06Tr) expr(e ast.Expr) string {
+	if c, ok := t.consts[t.s.src(e)]; ok {
+		return c
+	}
+	switch x := e.(type) {
+	case *ast.ParenExpr:
+		return "(" + t.expr(x.X) + ")"
+	case *ast.BasicLit:
+		if l, ok := t.lit(constant.MakeFromLiteral(x.Value, x.Kind, 0)); ok {
+			return l
+		}
+	case *ast.Ident:
+		switch x.Name {
+		case "true", "false":
+			return x.Name
+		}
+		if v, ok := t.s.constValue(t.rel, x.Name); ok {
+			if l, ok := t.lit(v); ok {
+				return l
+			}
+		}
+		return t.v(x.Name)
+	case *ast.SelectorExpr:
+		return t.v(t.s.src(x))
+	case *ast.CallExpr:
+		fn := t.s.src(x.Fun)
+		switch fn {
+		case "float64", "int", "int64", "time.Duration":
+			// numeric conversions are the identity on the exact value (truncation is the caller's business)
+			if len(x.Args) == 1 {
+				return t.expr(x.Args[0])
+			}
+		}
+		simple := true
+		names := []string{fn}
+		for _, a := range x.Args {
+			if id, ok := a.(*ast.Ident); ok {
+				names = append(names, id.Name)
+			} else {
+				simple = false
+			}
+		}
+		if simple {
+			return t.v(strings.Join(names, "_"))
+		}
+	case *ast.UnaryExpr:
+		switch x.Op {
+		case token.NOT:
+			return "(!" + t.expr(x.X) + ")"
+		case token.SUB:
+			return "(-" + t.expr(x.X) + ")"
+		}
+	case *ast.BinaryExpr:
+		a, b := t.expr(x.X), t.expr(x.Y)
+		switch x.Op {
+		case token.ADD, token.SUB, token.MUL:
+			return "(" + a + " " + x.Op.String() + " " + b + ")"
+		case token.LSS, token.GTR, token.LEQ, token.GEQ:
+			op := map[token.Token]string{token.LSS: "<", token.GTR: ">", token.LEQ: "≤", token.GEQ: "≥"}[x.Op]
+			return "(decide (" + a + " " + op + " " + b + "))"
+		case token.EQL:
+			return "(" + a + " == " + b + ")"
+		case token.NEQ:
+			return "(" + a + " != " + b + ")"
+		case token.LAND:
+			return "(" + a + " && " + b + ")"
+		case token.LOR:
+			return "(" + a + " || " + b + ")"
+		}
+	}
+	t.err = "cannot translate `" + t.s.src(e) + "`"
+	return "default"
+}
+
+// c06ExprDef emits `def <lean> (free variables) : <ret> := <translated expr>`; the free variables (receiver fields,
+// parameters, len(x), calls on plain identifiers) become parameters in order of first use.
+func c06ExprDef(s *source, e *emitter, rel, lean, ret, dflt, doc string, ex ast.Expr, consts, types map[string]string) {
+	if ex == nil {
+		e.errors = append(e.errors, lean+": expression not found ("+doc+")")
+		e.printf("/-- MISSING %s -/\ndef %s : Unit := ()\n\n", doc, lean)
+		return
+	}
+	t := &c06Tr{s: s, rel: rel, consts: consts, types: types, dflt: dflt}
+	body := t.expr(ex)
+	if t.err != "" {
+		e.errors = append(e.errors, lean+": "+t.err)
+		e.printf("/-- UNTRANSLATABLE %s -/\ndef %s : Unit := ()\n\n", doc, lean)
+		return
+	}
+	var ps []string
+	for _, f := range t.free {
+		ty := dflt
+		if x, ok := types[f]; ok {
+			ty = x
+		}
+		ps = append(ps, "("+f+" : "+ty+")")
+	}
+	e.printf("/-- %s: `%s` -/\ndef %s %s : %s := %s\n\n", doc, s.src(ex), lean, strings.Join(ps, " "), ret, body)
+}
+
+// c06Conds returns the conditions of the if statements of a function in source order.
+func c06Conds(fd *ast.FuncDecl) []ast.Expr {
+	var out []ast.Expr
+	if fd == nil {
+		return nil
+	}
+	ast.Inspect(fd.Body, func(n ast.Node) bool {
+		if i, ok := n.(*ast.IfStmt); ok {
+			out = append(out, i.Cond)
+		}
+		return true
+	})
+	return out
+}
+
+func c06Cond(s *source, rel, goName string, idx int) ast.Expr {
+	cs := c06Conds(s.findFunc(rel, goName))
+	if idx < len(cs) {
+		return cs[idx]
+	}
+	return nil
+}
+
+// c06FirstCallArg returns the single argument of the first call of `fun` (source text) in a function.
+func c06FirstCallArg(s *source, rel, goName, fun string) ast.Expr {
+	fd := s.findFunc(rel, goName)
+	if fd == nil {
+		return nil
+	}
+	var out ast.Expr
+	ast.Inspect(fd.Body, func(n ast.Node) bool {
+		if c, ok := n.(*ast.CallExpr); ok && out == nil && s.src(c.Fun) == fun && len(c.Args) == 1 {
+			out = c.Args[0]
+		}
+		return true
+	})
+	return out
+}
+
+// c06PkgWrites counts, over the non-test files of the package directory of rel, the places where the package-level
+// identifier `name` is written after its declaration: assignments, := shadowing, ++/--, & (address taken).
+func c06PkgWrites(rel, name string) int {
+	dir := filepath.Join(*repo, filepath.Dir(rel))
+	ents, err := os.ReadDir(dir)
+	if err != nil {
+		return -1
+	}
+	n := 0
+	fset := token.NewFileSet()
+	for _, en := range ents {
+		if en.IsDir() || !strings.HasSuffix(en.Name(), ".go") || strings.HasSuffix(en.Name(), "_test.go") {
+			continue
+		}
+		f, err := parser.ParseFile(fset, filepath.Join(dir, en.Name()), nil, parser.SkipObjectResolution)
+		if err != nil {
+			return -1
+		}
+		ast.Inspect(f, func(nd ast.Node) bool {
+			switch x := nd.(type) {
+			case *ast.AssignStmt:
+				for _, l := range x.Lhs {
+					if id, ok := l.(*ast.Ident); ok && id.Name == name {
+						n++
+					}
+				}
+			case *ast.IncDecStmt:
+				if id, ok := x.X.(*ast.Ident); ok && id.Name == name {
+					n++
+				}
+			case *ast.UnaryExpr:
+				if id, ok := x.X.(*ast.Ident); ok && x.Op == token.AND && id.Name == name {
+					n++
+				}
+			}
+			return true
+		})
+	}
+	return n
+}
+
+// c06Classify says where a value handed on by a constructor comes from:
+//   param:<p>                     a parameter of the function
+//   pkgvar:<v>=<init>             a package-level variable of the file, initialised once with <init>, never written again
+//   pkgvar-written:<v>            … that is written somewhere else in the package
+//   expr:<src>                    anything else (e.g. a fresh syncx.NewSingleFlight())
+func c06Classify(s *source, rel string, fd *ast.FuncDecl, a ast.Expr) string {
+	id, ok := a.(*ast.Ident)
+	if !ok {
+		return "expr:" + s.src(a)
+	}
+	for _, f := range fd.Type.Params.List {
+		for _, n := range f.Names {
+			if n.Name == id.Name {
+				return "param:" + id.Name
+			}
+		}
+	}
+	local := false
+	ast.Inspect(fd.Body, func(n ast.Node) bool {
+		if as, ok := n.(*ast.AssignStmt); ok && as.Tok == token.DEFINE {
+			for _, l := range as.Lhs {
+				if li, ok := l.(*ast.Ident); ok && li.Name == id.Name {
+					local = true
+				}
+			}
+		}
+		return true
+	})
+	if local {
+		return "expr:local " + id.Name
+	}
+	if f := s.file(rel); f != nil {
+		for _, d := range f.Decls {
+			gd, ok := d.(*ast.GenDecl)
+			if !ok || gd.Tok != token.VAR {
+				continue
+			}
+			for _, sp := range gd.Specs {
+				vs := sp.(*ast.ValueSpec)
+				for i, n := range vs.Names {
+					if n.Name == id.Name && i < len(vs.Values) {
+						if c06PkgWrites(rel, id.Name) != 0 {
+							return "pkgvar-written:" + id.Name
+						}
+						return "pkgvar:" + id.Name + "=" + s.src(vs.Values[i])
+					}
+				}
+			}
+		}
+	}
+	return "expr:" + id.Name
+}
+
+// c06CallArgClass classifies argument number `arg` of every call of `callee` (last selector) in a function.
+func c06CallArgClass(s *source, e *emitter, rel, goName, callee string, arg int) []string {
+	fd := s.findFunc(rel, goName)
+	if fd == nil {
+		e.errors = append(e.errors, fmt.Sprintf("function %s not found in %s", goName, rel))
+		return []string{"MISSING"}
+	}
+	var out []string
+	ast.Inspect(fd.Body, func(n ast.Node) bool {
+		if c, ok := n.(*ast.CallExpr); ok {
+			name := ""
+			switch f := c.Fun.(type) {
+			case *ast.SelectorExpr:
+				name = f.Sel.Name
+			case *ast.Ident:
+				name = f.Name
+			}
+			if name == callee && arg < len(c.Args) {
+				out = append(out, c06Classify(s, rel, fd, c.Args[arg]))
+			}
+		}
+		return true
+	})
+	return out
+}
+
+// c06LitFieldClass classifies the value of field `field` in every composite literal of type `typ` in a function.
+func c06LitFieldClass(s *source, e *emitter, rel, goName, typ, field string) []string {
+	fd := s.findFunc(rel, goName)
+	if fd == nil {
+		e.errors = append(e.errors, fmt.Sprintf("function %s not found in %s", goName, rel))
+		return []string{"MISSING"}
+	}
+	var out []string
+	ast.Inspect(fd.Body, func(n ast.Node) bool {
+		if cl, ok := n.(*ast.CompositeLit); ok && cl.Type != nil && s.src(cl.Type) == typ {
+			for _, el := range cl.Elts {
+				if kv, ok := el.(*ast.KeyValueExpr); ok && s.src(kv.Key) == field {
+					out = append(out, c06Classify(s, rel, fd, kv.Value))
+				}
+			}
+		}
+		return true
+	})
+	return out
+}
+
+func c06Pairs(e *emitter, lean, doc string, keys []string, vals map[string][]string) {
+	sort.Strings(keys)
+	var rows []string
+	for _, k := range keys {
+		// every classification `kind:rest` as the two strings kind, rest
+		var parts []string
+		for _, v := range vals[k] {
+			if i := strings.IndexByte(v, ':'); i >= 0 {
+				parts = append(parts, v[:i], v[i+1:])
+			} else {
+				parts = append(parts, v)
+			}
+		}
+		rows = append(rows, fmt.Sprintf("(%s, [%s])", leanString(k), strings.Join(c06Map(parts, leanString), ", ")))
+	}
+	e.printf("/-- %s -/\ndef %s : List (String × List String) := [%s]\n\n", doc, lean, strings.Join(rows, ", "))
+}
+
+func c06Map(l []string, f func(string) string) []string {
+	out := make([]string, len(l))
+	for i, x := range l {
+		out[i] = f(x)
+	}
+	return out
+}
 
 // c06SwitchTable emits, for a function whose body is `switch x { case C: return V, true … default: return 0, false }`,
 // the list of (C, V) pairs as Lean `List (Int × Int)` (constants evaluated) and the default's source.
@@ -287,5 +641,45 @@ func init() {
 			"ReplaceOne", "UpdateByID", "UpdateMany", "UpdateOne"} {
 			c06Facts(s, e, monc, "Model."+w, "monc"+w+"Facts", w, "DelCache")
 		}
+		// round 4: several instances — where the barrier of every constructor comes from (classified, not as text):
+		// the shared-barrier constructors hand the package-level variable on (initialised once, never written again),
+		// cache.New hands its parameter to every NewNode, NewNode stores its parameter, the with-cache constructors
+		// keep the cache they are given
+		c06Pairs(e, "sqlcCtorBarriers", "barrier argument of the cache constructor called by each sqlc constructor", []string{"NewConn", "NewNodeConn"},
+			map[string][]string{"NewConn": c06CallArgClass(s, e, sqlc, "NewConn", "New", 1), "NewNodeConn": c06CallArgClass(s, e, sqlc, "NewNodeConn", "NewNode", 1)})
+		c06Pairs(e, "moncCtorBarriers", "barrier argument of the cache constructor called by each monc constructor", []string{"NewModel", "NewNodeModel"},
+			map[string][]string{"NewModel": c06CallArgClass(s, e, monc, "NewModel", "New", 1), "NewNodeModel": c06CallArgClass(s, e, monc, "NewNodeModel", "NewNode", 1)})
+		e.stringList("cacheNewBarrierArgs", "barrier argument of every NewNode call in cache.New", c06CallArgClass(s, e, cluster, "New", "NewNode", 1))
+		e.stringList("newNodeBarrierField", "value of the field `barrier` of the cacheNode literal in NewNode", c06LitFieldClass(s, e, node, "NewNode", "cacheNode", "barrier"))
+		e.stringList("newConnWithCacheField", "value of the field `cache` of the CachedConn literal in NewConnWithCache", c06LitFieldClass(s, e, sqlc, "NewConnWithCache", "CachedConn", "cache"))
+		e.stringList("newConnPassesCache", "cache argument of NewConnWithCache in NewConn / NewNodeConn",
+			append(c06CallArgClass(s, e, sqlc, "NewConn", "NewConnWithCache", 1), c06CallArgClass(s, e, sqlc, "NewNodeConn", "NewConnWithCache", 1)...))
+		e.stringList("moncNewModelField", "value of the field `cache` of the Model literal in newModel", c06LitFieldClass(s, e, monc, "newModel", "Model", "cache"))
+		e.stringList("moncWithCachePasses", "cache argument handed on by NewModelWithCache / NewModel / NewNodeModel",
+			append(append(c06CallArgClass(s, e, monc, "NewModelWithCache", "newModel", 3), c06CallArgClass(s, e, monc, "NewModel", "NewModelWithCache", 3)...),
+				c06CallArgClass(s, e, monc, "NewNodeModel", "NewModelWithCache", 3)...))
+		c06Facts(s, e, monc, "MustNewModel", "moncMustNewModelFacts", "NewModel")
+		c06Facts(s, e, monc, "MustNewNodeModel", "moncMustNewNodeModelFacts", "NewNodeModel")
+		c06Facts(s, e, flight, "NewSingleFlight", "newSingleFlightFacts")
+		c06Facts(s, e, node, "cacheNode.String", "nodeStringFacts")
+		// round 4: decision-making conditions on the path, TRANSLATED to Lean functions (operators, constants, operands)
+		cst := map[string]string{}
+		if v, ok := s.constValue(rds, "ClusterType"); ok && v.Kind() == constant.String {
+			cst["redis.ClusterType"] = leanString(constant.StringVal(v))
+		}
+		str := map[string]string{"c_rds_Type": "String", "data": "String"}
+		c06ExprDef(s, e, node, "delCtxCondEmpty", "Bool", "Int", "cacheNode.DelCtx, 1st condition", c06Cond(s, node, "cacheNode.DelCtx", 0), cst, str)
+		c06ExprDef(s, e, node, "delCtxCondLoop", "Bool", "Int", "cacheNode.DelCtx, 2nd condition (per-key loop)", c06Cond(s, node, "cacheNode.DelCtx", 1), cst, str)
+		c06ExprDef(s, e, node, "setWithExpireCond", "Bool", "Int", "cacheNode.SetWithExpireCtx, fall back to the configured expiry", c06Cond(s, node, "cacheNode.SetWithExpireCtx", 1), cst, str)
+		c06ExprDef(s, e, node, "ttlSecondsCond", "Bool", "Int", "ttlSeconds, keep the rounded seconds", c06Cond(s, node, "ttlSeconds", 0), cst, str)
+		c06ExprDef(s, e, node, "doGetCacheCondEmpty", "Bool", "Int", "doGetCache, empty value = miss", c06Cond(s, node, "cacheNode.doGetCache", 1), cst, str)
+		c06ExprDef(s, e, node, "doGetCacheCondPlaceholder", "Bool", "Int", "doGetCache, the not-found marker", c06Cond(s, node, "cacheNode.doGetCache", 2), cst, str)
+		c06ExprDef(s, e, cluster, "newCondFatal", "Bool", "Int", "cache.New, no usable node", c06Cond(s, cluster, "New", 0), cst, str)
+		c06ExprDef(s, e, cluster, "newCondSingle", "Bool", "Int", "cache.New, a single node = plain cacheNode", c06Cond(s, cluster, "New", 1), cst, str)
+		c06ExprDef(s, e, unstable, "newUnstableCondLow", "Bool", "Rat", "NewUnstable, clamp below", c06Cond(s, unstable, "NewUnstable", 0), cst, str)
+		c06ExprDef(s, e, unstable, "newUnstableCondHigh", "Bool", "Rat", "NewUnstable, clamp above", c06Cond(s, unstable, "NewUnstable", 1), cst, str)
+		c06Assigns(s, e, unstable, "NewUnstable", "newUnstableAssigns")
+		c06ExprDef(s, e, unstable, "aroundExpr", "Rat", "Rat", "Unstable.AroundDuration, the jittered duration before truncation", c06FirstCallArg(s, unstable, "Unstable.AroundDuration", "time.Duration"), cst, str)
+		c06ExprDef(s, e, unstable, "aroundIntExpr", "Rat", "Rat", "Unstable.AroundInt, the jittered value before truncation", c06FirstCallArg(s, unstable, "Unstable.AroundInt", "int64"), cst, str)
 	})
 }
